@@ -98,12 +98,12 @@ func baseName(obl string) string {
 }
 
 type Outcome struct {
-	Violations    int
-	Lines         []string
-	Evidence      map[string]interface{}
-	Results       []*vc.Result
-	VCs           []*vc.VC
-	FailedNames   []string
+	Violations     int
+	Lines          []string
+	Evidence       map[string]interface{}
+	Results        []*vc.Result
+	VCs            []*vc.VC
+	FailedNames    []string
 	UndecidedNames []string
 }
 
@@ -439,14 +439,14 @@ func RunCheck(opts RunOpts, t0 time.Time) (*Outcome, error) {
 		"property_id": prop, "tier": opts.Tier, "seed": opts.Seed, "level": "proof",
 		"coverage": map[string]interface{}{
 			"obligations": nObl, "discharged": nDis,
-			"checker_cmd":  fmt.Sprintf("bin/check %s %s (govc: go/ssa weakest-precondition generator over /repo; solvers z3 5.1.0, cvc5 1.0.x, z3 4.8.12)", prop, opts.Tier),
-			"trusted_base": trustedBase(assumed),
-			"functions_under_contract": fuc,
-			"by_backend":               byBackend,
-			"solver_time_s":            round3(solverTime),
-			"samples":                  samples,
-			"known_findings":           dedup(knownLines),
-			"undecided":                undecided,
+			"checker_cmd":                  fmt.Sprintf("bin/check %s %s (govc: go/ssa weakest-precondition generator over /repo; solvers z3 5.1.0, cvc5 1.0.x, z3 4.8.12)", prop, opts.Tier),
+			"trusted_base":                 trustedBase(assumed),
+			"functions_under_contract":     fuc,
+			"by_backend":                   byBackend,
+			"solver_time_s":                round3(solverTime),
+			"samples":                      samples,
+			"known_findings":               dedup(knownLines),
+			"undecided":                    undecided,
 			"assumed_contracts_and_models": assumed,
 			"unmodelled_externals":         unmodelled,
 			"inlined_callees":              inlined,
@@ -594,16 +594,16 @@ func writeReplay(opts RunOpts, dir, prop string, r *vc.Result, e *vc.Engine) (st
 	name := strings.NewReplacer("/", "_", "|", "_", " ", "_", "*", "P", "(", "", ")", "", "[", "_", "]", "_", ":", "_").Replace(r.Obl.Name)
 	path := filepath.Join(dir, fmt.Sprintf("%s_%s.json", prop, name))
 	rep := map[string]interface{}{
-		"property":   prop,
-		"obligation": r.Obl.Name,
-		"kind":       r.Obl.Kind,
-		"function":   r.Obl.Func,
-		"position":   r.Obl.Pos.String(),
-		"clause":     r.Obl.Detail,
-		"solver":     r.Solver,
-		"answer":     r.Raw,
-		"per_solver": r.PerSolver,
-		"model":      r.Model,
+		"property":           prop,
+		"obligation":         r.Obl.Name,
+		"kind":               r.Obl.Kind,
+		"function":           r.Obl.Func,
+		"position":           r.Obl.Pos.String(),
+		"clause":             r.Obl.Detail,
+		"solver":             r.Solver,
+		"answer":             r.Raw,
+		"per_solver":         r.PerSolver,
+		"model":              r.Model,
 		"solver_output_head": head(r.Output, 40),
 	}
 	reproduced := false
